@@ -1,7 +1,7 @@
 /-
 C12 — A reported fix is a real fix: re-analysis matches the report.
-Reduction theorems over the pipeline model; `WriterCorrect` is C13's round-trip theorem as a hypothesis
-(instantiated for package.json at the end).  Helper lemmas live in `Scalibr.Proofs.Pipeline`.
+Reduction theorems over the pipeline model; `WriterCorrect` is C13's round-trip theorem as a hypothesis,
+discharged for package.json at the end (`C12_npm_writer_correct`).  Helper lemmas live in `Scalibr.Proofs.Pipeline`.
 -/
 import Scalibr.Proofs.Pipeline
 import Scalibr.Properties.C13
@@ -41,7 +41,7 @@ theorem C12_unactionable (vulns : List Nat) (all : List Patch) (k : Int) (ni : B
 
 /-- `ConstructPatches` reports exactly the set differences: fixed = old ∖ new, introduced = new ∖ old
 (the new analysis lists every vulnerability once). -/
-theorem C12_patch_is_diff (old new : List Nat) (hn : new.Nodup) (v : Nat) :
+theorem C12_patch_is_diff_partial (old new : List Nat) (hn : new.Nodup) (v : Nat) :
     (v ∈ (vulnDiff old new).1 ↔ v ∈ old ∧ v ∉ new) ∧ (v ∈ (vulnDiff old new).2 ↔ v ∈ new ∧ v ∉ old) := by
   obtain ⟨h1, h2⟩ := vulnDiffAux_spec new old.eraseDups [] hn v
   unfold vulnDiff
@@ -49,9 +49,9 @@ theorem C12_patch_is_diff (old new : List Nat) (hn : new.Nodup) (v : Nat) :
   simp [mem_eraseDups]
 
 /-- hence: the new analysis is the original minus the fixed plus the introduced -/
-theorem C12_after_is_expected (old new : List Nat) (hn : new.Nodup) (v : Nat) :
+theorem C12_after_is_expected_partial (old new : List Nat) (hn : new.Nodup) (v : Nat) :
     v ∈ new ↔ expectedAfter old (vulnDiff old new).1 (vulnDiff old new).2 v = true := by
-  obtain ⟨h1, h2⟩ := C12_patch_is_diff old new hn v
+  obtain ⟨h1, h2⟩ := C12_patch_is_diff_partial old new hn v
   unfold expectedAfter
   simp only [Bool.or_eq_true, Bool.and_eq_true, List.contains_iff_mem, Bool.not_eq_true', decide_eq_false_iff_not,
     List.contains_eq_mem, decide_eq_true_eq]
@@ -63,7 +63,7 @@ with the npm alias / Maven type): every entry whose version changed has its own 
 own key, and every reported update comes from an entry of the new manifest with that key whose old
 version (under the same key) differs.  Two entries for one package — its own name and an `npm:` alias,
 at the same old and new range — therefore yield two updates (`C12_alias_pair_witness`). -/
-theorem C12_update_per_entry (old new : List (Key × Nat)) (hn : (old.map (·.1)).Nodup) :
+theorem C12_update_per_entry_partial (old new : List (Key × Nat)) (hn : (old.map (·.1)).Nodup) :
     (∀ k v v', (k, v) ∈ old → (k, v') ∈ new → v' ≠ v → (⟨k, some v, v'⟩ : ReqUpdate) ∈ reqDiff old new) ∧
     (∀ u ∈ reqDiff old new, (u.key, u.to) ∈ new ∧ u.frm = lookupReq old u.key ∧ u.frm ≠ some u.to) :=
   ⟨fun k v v' h1 h2 hne => reqDiff_has_update old new hn k v v' h1 h2 hne, fun u hu => reqDiff_sound old new u hu⟩
@@ -78,49 +78,81 @@ theorem C12_alias_pair_witness :
 
 /-- The requirement updates a patch reports, substituted into the old requirements, give the patched
 requirements (same keys in the same order, no duplicates: an update, not an addition). -/
-theorem C12_updates_substitute (old new : List (Key × Nat)) (hk : old.map (·.1) = new.map (·.1))
+theorem C12_updates_substitute_partial (old new : List (Key × Nat)) (hk : old.map (·.1) = new.map (·.1))
     (hn : (old.map (·.1)).Nodup) : applyUpdates old (reqDiff old new) = new :=
   applyUpdates_reqDiff old new hk hn
 
-/-- Reduction to C13.  If the writer is correct (re-read = substitute) and the strategy's in-memory
-manifest differs from the original by the same key-preserving updates it reports, then the fresh
-analysis of the file written to disk equals the analysis the report was computed from — and therefore
-consists of the original vulnerabilities minus the fixed plus the introduced ones. -/
-theorem C12_roundtrip {M : Type} (p : Pipe M) (hw : WriterCorrect p) (m : M) (m' : M)
-    (hk : (p.requirements m).map (·.1) = (p.requirements m').map (·.1))
-    (hn : ((p.requirements m).map (·.1)).Nodup) (hnd : (p.vulns (p.requirements m')).Nodup) :
-    let us := reqDiff (p.requirements m) (p.requirements m')
-    let rep := vulnDiff (p.vulns (p.requirements m)) (p.vulns (p.requirements m'))
-    p.requirements (p.write m us) = p.requirements m' ∧
-    ∀ v, v ∈ p.vulns (p.requirements (p.write m us)) ↔
-      expectedAfter (p.vulns (p.requirements m)) rep.1 rep.2 v = true := by
-  intro us rep
-  have h1 : p.requirements (p.write m us) = p.requirements m' := by
-    rw [hw m us]; exact C12_updates_substitute _ _ hk hn
+/-- the report `ConstructPatches` attaches to the patch that turns requirements `r0` into `r'` inside one run -/
+def reportOf {M F R U : Type} (p : Pipe M F R U) (E : List Nat) (r0 r' : R) : List Nat × List Nat :=
+  vulnDiff (analyseFresh p E r0) (analyseInRun p E r0 r')
+
+/-- Reduction to C13, for runs WITHOUT an ExplicitVulns list.  Let a run start from manifest `m`, let the strategy's
+in-memory manifest have requirements `r'`, let the reported updates `us` substitute the original requirements to
+`r'` (for `ConstructPatches`' updates: `C12_updates_substitute_partial`), and let `Write` succeed with file `f`.  If the
+writer is correct (C13) then the FRESH analysis of what is read back from `f` — the options' analysis applied to
+`read f`, not to the in-memory manifest — consists of exactly the original vulnerabilities minus the reported
+fixed plus the reported introduced ones.
+`_partial`: (1) `E = []`; with an ExplicitVulns list the statement is false for the unchanged code
+(`C12_explicit_vulns_witness`, known finding C12/explicit-vulns-introduced).  (2) `WriterCorrect` is a hypothesis;
+it is a theorem for package.json (`C12_npm_writer_correct`), for pom.xml it holds on the literal fragment only and
+fails in the classes C13/pom-origin-ignored, pom-shared-property, pom-property-other-profile (known findings).
+(3) `raw` being a function of the requirements is the determinism assumption on resolver and matcher. -/
+theorem C12_roundtrip_partial {M F R U : Type} (p : Pipe M F R U) (wf : M → List U → Prop) (hw : WriterCorrect p wf)
+    (m : M) (us : List U) (f : F) (r' : R) (hwf : wf m us) (hwr : p.write m us = some f)
+    (hsub : p.subst (p.requirements m) us = r') (hnd : (p.raw r').Nodup) :
+    p.requirements (p.read f) = r' ∧
+    ∀ v, v ∈ analyseFresh p [] (p.requirements (p.read f)) ↔
+      expectedAfter (analyseFresh p [] (p.requirements m)) (reportOf p [] (p.requirements m) r').1
+        (reportOf p [] (p.requirements m) r').2 v = true := by
+  have h1 : p.requirements (p.read f) = r' := by rw [hw m us f hwf hwr, hsub]
   refine ⟨h1, ?_⟩
   intro v
   rw [h1]
-  exact C12_after_is_expected _ _ hnd v
+  have e1 : analyseFresh p [] r' = p.raw r' := by simp [analyseFresh]
+  have e2 : analyseInRun p [] (p.requirements m) r' = p.raw r' := by simp [analyseInRun]
+  unfold reportOf
+  rw [e1, e2]
+  exact C12_after_is_expected_partial _ _ hnd v
 
-/-- When no patch is reported, the written manifest has the requirements it had. -/
-theorem C12_no_patch_no_change {M : Type} (p : Pipe M) (hw : WriterCorrect p) (m : M) :
-    p.requirements (p.write m []) = p.requirements m := by
-  rw [hw m []]
-  unfold applyUpdates
-  have : (p.requirements m).map (fun x => match ([] : List ReqUpdate).find? (fun u => u.key = x.1 ∧ u.frm = some x.2) with
-      | some u => (x.1, u.to) | none => (x.1, x.2)) = (p.requirements m).map id := by
-    apply List.map_congr_left; intro x _; simp
-  refine Eq.trans ?_ (this.trans (by simp))
-  apply List.map_congr_left
-  intro x _
-  obtain ⟨k, v⟩ := x
-  rfl
+/-- the same for a patch picked by `choosePatches`: if the chosen patch carries that report, the fresh analysis is
+the original minus ITS fixed plus ITS introduced -/
+theorem C12_chosen_patch_is_real_partial {M F R U : Type} (p : Pipe M F R U) (wf : M → List U → Prop)
+    (hw : WriterCorrect p wf) (m : M) (us : List U) (f : F) (r' : R) (hwf : wf m us) (hwr : p.write m us = some f)
+    (hsub : p.subst (p.requirements m) us = r') (hnd : (p.raw r').Nodup)
+    (all : List Patch) (k : Int) (ni : Bool) (pt : Patch) (_hc : pt ∈ choosePatches all k ni)
+    (hf : pt.fixed = (reportOf p [] (p.requirements m) r').1) (hi : pt.introduced = (reportOf p [] (p.requirements m) r').2) :
+    ∀ v, v ∈ analyseFresh p [] (p.requirements (p.read f)) ↔
+      expectedAfter (analyseFresh p [] (p.requirements m)) pt.fixed pt.introduced v = true := by
+  rw [hf, hi]
+  exact (C12_roundtrip_partial p wf hw m us f r' hwf hwr hsub hnd).2
 
-/-! Non-vacuity: a pipe satisfying `WriterCorrect` (manifest = its requirement list), and concrete
-patch lists exercising every branch of `choosePatches`. -/
-def listPipe (vulns : List (Key × Nat) → List Nat) : Pipe (List (Key × Nat)) :=
-  ⟨id, vulns, fun m us => applyUpdates m us, fun m us => applyUpdates m us⟩
-example (vulns : List (Key × Nat) → List Nat) : WriterCorrect (listPipe vulns) := fun _ _ => rfl
+/-- When no patch is reported, the manifest read back has the requirements it had (given the writer's identity on
+no update, i.e. `subst r [] = r`). -/
+theorem C12_no_patch_no_change_partial {M F R U : Type} (p : Pipe M F R U) (wf : M → List U → Prop) (hw : WriterCorrect p wf)
+    (hid : ∀ r, p.subst r [] = r) (m : M) (f : F) (hwf : wf m []) (hwr : p.write m [] = some f) :
+    p.requirements (p.read f) = p.requirements m := by
+  rw [hw m [] f hwf hwr, hid]
+
+/-- Known finding C12/explicit-vulns-introduced on the model: ExplicitVulns = [1]; the original graph holds
+vulnerability 1 only, the patched graph holds 3 only.  The run reports fixed = [1], introduced = [3] (3 was not in
+the original graph, so it is not on the ignore list); a fresh analysis of the same requirements ignores 3. -/
+theorem C12_explicit_vulns_witness :
+    let p : Pipe Nat Nat Nat Nat := ⟨id, id, fun _ _ => some 1, fun _ _ => 1, fun r => if r = 0 then [1] else [3]⟩
+    reportOf p [1] 0 1 = ([1], [3]) ∧ analyseFresh p [1] 1 = [] ∧
+    ¬ (∀ v, v ∈ analyseFresh p [1] 1 ↔ expectedAfter (analyseFresh p [1] 0) (reportOf p [1] 0 1).1 (reportOf p [1] 0 1).2 v = true) := by
+  refine ⟨by decide, by decide, ?_⟩
+  intro h
+  have := (h 3).mpr (by decide)
+  exact absurd this (by decide)
+
+/-! Non-vacuity: a pipe satisfying `WriterCorrect` on requirement lists, and concrete patch lists exercising every
+branch of `choosePatches`. -/
+def listPipe (raw : List (Key × Nat) → List Nat) : Pipe (List (Key × Nat)) (List (Key × Nat)) (List (Key × Nat)) ReqUpdate :=
+  ⟨id, id, fun m us => some (applyUpdates m us), applyUpdates, raw⟩
+example (raw : List (Key × Nat) → List Nat) : WriterCorrect (listPipe raw) (fun _ _ => True) := by
+  intro m us f _ h
+  simp only [listPipe, Option.some.injEq] at h
+  subst h; rfl
 
 def exPatches : List Patch :=
   [⟨[⟨1, 10, 11⟩], [100], []⟩, ⟨[⟨1, 10, 12⟩], [100, 101], []⟩, ⟨[⟨2, 20, 21⟩], [100], []⟩, ⟨[⟨3, 30, 31⟩], [102], [200]⟩, ⟨[⟨4, 40, 41⟩], [103], []⟩]
@@ -130,18 +162,42 @@ example : (choosePatches exPatches 1 false).map (·.fixed) = [[100]] := by decid
 example : computeVulnsResult [100, 104] exPatches = [(100, false), (104, true)] := by decide
 example : vulnDiff [1, 2, 3] [3, 4] = ([1, 2], [4]) := by decide
 example : reqDiff [((1, 0), 10), ((2, 0), 20)] [((1, 0), 10), ((2, 0), 21), ((3, 0), 30)] = [⟨(2, 0), some 20, 21⟩, ⟨(3, 0), none, 30⟩] := by decide
-/-- the `Nodup` hypothesis of `C12_patch_is_diff` is not decoration: a vulnerability listed twice by the
+/-- the `Nodup` hypothesis of `C12_patch_is_diff_partial` is not decoration: a vulnerability listed twice by the
 new analysis is reported as introduced although it was there before -/
 theorem C12_duplicate_witness : vulnDiff [7] [7, 7] = ([], [7]) := by decide
 
 end Scalibr.Pipeline
 
 namespace Scalibr.Npm
+open Scalibr.Pipeline
 
-/-- C13's theorem in the shape `WriterCorrect` asks for, for package.json: whenever `Write` succeeds
-on a well-formed document with well-formed updates, re-reading gives the substituted requirements. -/
-theorem C12_writer_correct_npm (d d' : Doc) (us : List Up) (hwf : WFdoc d) (hu : ∀ u ∈ us, WFup u = true)
-    (h : write d us = .ok d') : requirements d' = substitute (requirements d) us :=
-  (C13_npm_roundtrip d d' us hwf hu h).1
+/-- the pipeline for package.json: the file IS the document model of C13, `Write` fails where `packagejson.Write`
+returns an error, `Read` is the model of `parse` -/
+def npmPipe (raw : List Req → List Nat) : Pipe Doc Doc (List Req) Up :=
+  ⟨requirements, id, fun d us => match write d us with | .ok d' => some d' | .err => none, substitute, raw⟩
+
+/-- `WriterCorrect` for package.json is C13's theorem: documents with unique keys per section, well-formed updates -/
+theorem C12_npm_writer_correct (raw : List Req → List Nat) :
+    WriterCorrect (npmPipe raw) (fun d us => WFdoc d ∧ ∀ u ∈ us, WFup u = true) := by
+  intro d us f hwf h
+  simp only [npmPipe] at h ⊢
+  cases hw : write d us with
+  | err => simp [hw] at h
+  | ok d' =>
+    simp only [hw, Option.some.injEq] at h
+    subst h
+    exact (C13_npm_roundtrip_partial d d' us hwf.1 hwf.2 hw).1
+
+/-- hence, for package.json and runs without ExplicitVulns: a reported fix is a real fix (modulo the determinism
+of resolver and matcher, and the strategy's updates substituting to its in-memory requirements) -/
+theorem C12_npm_roundtrip_partial (raw : List Req → List Nat) (d d' : Doc) (us : List Up) (r' : List Req)
+    (hwf : WFdoc d) (hu : ∀ u ∈ us, WFup u = true) (hw : write d us = .ok d')
+    (hsub : substitute (requirements d) us = r') (hnd : (raw r').Nodup) :
+    requirements d' = r' ∧
+    ∀ v, v ∈ analyseFresh (npmPipe raw) [] (requirements d') ↔
+      expectedAfter (analyseFresh (npmPipe raw) [] (requirements d)) (reportOf (npmPipe raw) [] (requirements d) r').1
+        (reportOf (npmPipe raw) [] (requirements d) r').2 v = true := by
+  have := C12_roundtrip_partial (npmPipe raw) _ (C12_npm_writer_correct raw) d us d' r' ⟨hwf, hu⟩ (by simp [npmPipe, hw]) hsub hnd
+  simpa [npmPipe] using this
 
 end Scalibr.Npm
